@@ -230,8 +230,35 @@ func runCase(cs *caseSpec, rng *rand.Rand, replay []int, record bool) (sched []i
 	}
 	s = vsync.New(fns)
 	step := 0
+	rankBad := false
+	rankStates := 0
 	s.Choose = func(st int, enabled []int) int {
 		enabledSets = append(enabledSets, append([]int(nil), enabled...))
+		// C06 oracle (Lean: Ranked (levelRank tree)): in this state every task parked in
+		// Lock() wants a mutex that comes after all it holds in the level order of the tree
+		// (rootMutex, root, then level by level, left to right)
+		if !rankBad {
+			tids, wants := s.Waiting()
+			var rank map[*vsync.Mutex]int
+			for i, tid := range tids {
+				held := s.HeldBy(tid)
+				if len(held) == 0 {
+					continue
+				}
+				if rank == nil {
+					rank = levelRank(tr.Snapshot())
+					rankStates++
+				}
+				rw := rank[wants[i]]
+				for _, h := range held {
+					if rank[h] >= rw {
+						rankBad = true
+						oracles = append(oracles, oracleMsg{"lockorder", fmt.Sprintf("task %d waits for a mutex of level-order rank %d while holding one of rank %d (0 = not a node of the tree)", tid, rw, rank[h])})
+						break
+					}
+				}
+			}
+		}
 		var pick int
 		if step < len(replay) {
 			pick = replay[step]
@@ -313,6 +340,7 @@ func runCase(cs *caseSpec, rng *rand.Rand, replay []int, record bool) (sched []i
 			lines = append(lines, fmt.Sprintf("n %d %s", e.Tid, e.Text))
 		}
 	}
+	lines = append(lines, fmt.Sprintf("# lockorder states %d", rankStates))
 	if s.Deadlock != "" {
 		lines = append(lines, "deadlock")
 		oracles = append(oracles, oracleMsg{"deadlock", s.Deadlock})
@@ -391,6 +419,10 @@ func runCase(cs *caseSpec, rng *rand.Rand, replay []int, record bool) (sched []i
 					}
 					if op.kind == "ns" && len(held[tid]) != 1 {
 						oracles = append(oracles, oracleMsg{"locks", fmt.Sprintf("task %d returned from `%s` holding %d locks, expected exactly one leaf", tid, op.text, len(held[tid]))})
+					}
+					// C10: a resting cursor holds exactly one leaf
+					if (op.kind == "ns" || (op.kind == "scan" && f[4] == "true")) && len(held[tid]) > 1 {
+						oracles = append(oracles, oracleMsg{"resting", fmt.Sprintf("task %d rests after `%s` holding %d locks: a resting cursor holds exactly one leaf", tid, op.text, len(held[tid]))})
 					}
 				}
 			}
@@ -512,6 +544,29 @@ func runCase(cs *caseSpec, rng *rand.Rand, replay []int, record bool) (sched []i
 		lines = append(lines, "# linearizability search budget exhausted (inconclusive)")
 	}
 	return
+}
+
+// levelRank numbers the nodes' mutexes in level order from 1 (root); anything else,
+// in particular the tree's rootMutex, has rank 0.
+func levelRank(root *gobptree.VerifNode) map[*vsync.Mutex]int {
+	rank := map[*vsync.Mutex]int{}
+	level := []*gobptree.VerifNode{root}
+	n := 0
+	for len(level) > 0 {
+		var next []*gobptree.VerifNode
+		for _, x := range level {
+			if x == nil || x.Truncated {
+				continue
+			}
+			if _, seen := rank[x.Mutex]; !seen {
+				n++
+				rank[x.Mutex] = n
+			}
+			next = append(next, x.Children...)
+		}
+		level = next
+	}
+	return rank
 }
 
 func collectLeaves(n *gobptree.VerifNode, acc *[]*gobptree.VerifNode) {
